@@ -118,6 +118,14 @@ pub mod mixed {
     }
 }
 
+/// a path-restricted trait visibility in module mode
+#[entrait(pub(in crate::c08_modules) PathVis)]
+pub mod path_vis {
+    pub fn pv<D>(deps: &D, a: u8) -> u8 {
+        a
+    }
+}
+
 #[entrait(Empty)]
 mod empty {}
 
